@@ -181,7 +181,7 @@ def run(ctx):
         n += 1
         ctx.ob("C06.7", "prints-a-response|%s" % g2.id, "the library prints a response only in the connection parser's error arms, respond, upgrade, as_reader and the Request's destructor (never while building a request or elsewhere)",
                (g2.id, bb2) in allowed, g2.loc(bb2))
-    ctx.floor("C06.7 sites printing a final response", n, 4)
+    ctx.floor("C06.7 sites printing a final response", n, 2)   # (respond and the destructor at least; the parser's answers may share one site)
     # ---- C06.8 flushing the request's writer takes its turn and flushes the socket (the writer chain's rule C01.2, taken over)
     import rules_C01, engine
     c2_ = engine.Ctx("C06", "quick", facts, 0)
